@@ -55,6 +55,8 @@ def evaluate(mid):
             print(mid, c, det[c]["verdict"], len(viol), "%ds" % det[c]["wall_s"], flush=True)
     finally:
         sh("git -C /repo revert --abort; git -C /repo reset -q --hard HEAD && git -C /repo clean -fdq -e target")
+    if os.environ.get("SEED_EVAL_NOWRITE"):
+        return
     meta["detection"] = {"repo_head": head(), "applied_on": base, "tier": "quick", "checks": det,
                          "ran": "git -C /repo apply seeded/%s/patch.diff; ./check <id> --tier quick; git -C /repo checkout -- ." % mid}
     json.dump(meta, open(os.path.join(d, "meta.json"), "w"), indent=1)
@@ -91,4 +93,5 @@ if __name__ == "__main__":
         for mid in sorted(os.listdir(SEED)):
             if os.path.isdir(os.path.join(SEED, mid)) and (not only or mid in only):
                 evaluate(mid)
-    results()
+    if not os.environ.get("SEED_EVAL_NOWRITE"):
+        results()
